@@ -28,7 +28,11 @@ func (c *multiCase) Describe() interface{} {
 	return map[string]interface{}{"decls": describeDecls(c.DS), "spec": c.Spec, "argv": c.Argv, "env": c.Env.Describe(), "given_on_command_line": given}
 }
 
-func genMulti(t *Tape) *multiCase {
+func genMulti(t *Tape) *multiCase { return genMultiOpt(t, false) }
+
+// genMultiOpt: with yieldProbe the application also declares a simulator-owned custom value, given once on the
+// command line, whose Set is a scheduling point (used by scheduled pairs).
+func genMultiOpt(t *Tape, yieldProbe bool) *multiCase {
 	c := &multiCase{Cli: map[*Decl][]string{}}
 	ds := &DeclSet{}
 	nOpt := 2 + t.Draw(4)
@@ -129,6 +133,13 @@ func genMulti(t *Tape) *multiCase {
 	if argRow != nil {
 		parts = append(parts, argRow.spec)
 	}
+	var probeDecl *Decl
+	if yieldProbe {
+		probeDecl = &Decl{Kind: KVar, Name: "q quux", Probe: &ProbeSpec{YieldInSet: true}}
+		if len(parts) == 0 || parts[0] != "[OPTIONS]" {
+			parts = append([]string{"[-q]"}, parts...)
+		}
+	}
 	c.Spec = strings.Join(parts, " ")
 	// command line
 	s := &sentence{}
@@ -149,6 +160,9 @@ func genMulti(t *Tape) *multiCase {
 	}
 	s.foldAdjacent(t, ds)
 	argv := append([]string{"app"}, s.toks...)
+	if probeDecl != nil {
+		argv = append([]string{"app", []string{"-q=1", "--quux=2", "-q3"}[t.Draw(3)]}, s.toks...)
+	}
 	if hasArg && t.Draw(2) == 1 {
 		argv = append(argv, "xval")
 		c.Cli[ds.Args[0]] = []string{"xval"}
@@ -166,7 +180,11 @@ func genMulti(t *Tape) *multiCase {
 	}
 	c.Argv = argv
 	c.DS = ds
-	root := &CmdDecl{Name: "app", Spec: c.Spec, Decls: ds.All(), Action: CB{Kind: CBReturn}}
+	decls := ds.All()
+	if probeDecl != nil {
+		decls = append(decls, probeDecl)
+	}
+	root := &CmdDecl{Name: "app", Spec: c.Spec, Decls: decls, Action: CB{Kind: CBReturn}}
 	c.App = &AppDecl{Root: root, Policy: flag.ContinueOnError}
 	c.App.Finish()
 	return c
@@ -182,13 +200,29 @@ func multiExec(c *multiCase, st *Stats, checkValues bool) *Violation {
 func multiExecOpt(c *multiCase, st *Stats, checkValues, skipDefaultLoss bool) *Violation {
 	c.Env.Apply()
 	defer EnvState{}.Apply()
+	pr := multiPrepare(c, 0, checkValues, skipDefaultLoss)
+	RunProc(pr.Proc, pr.Body)
+	return pr.Finish(st)
+}
+
+func multiPrepare(c *multiCase, id int, checkValues, skipDefaultLoss bool) *Prepared {
 	resetWorld(c.App)
-	p := NewProc(0)
+	p := NewProc(id)
 	var inst *Instance
-	RunProc(p, func() error {
+	body := func() error {
 		inst = Build(c.App, p)
 		return inst.Cli.Run(c.Argv)
-	})
+	}
+	return &Prepared{Proc: p, Body: body, Finish: func(st *Stats) *Violation { return multiVerdict(c, p, inst, st, checkValues, skipDefaultLoss) }}
+}
+
+// multiPairExec runs two multi-container cases as concurrent simulated processes under the scheduler.
+func multiPairExec(g *genericPair, st *Stats, checkValues, skipDefaultLoss bool) *Violation {
+	return execGenericPair(g, st, func(c Case, id int) *Prepared { return multiPrepare(c.(*multiCase), id, checkValues, skipDefaultLoss) },
+		func(c Case) EnvState { return c.(*multiCase).Env }, func(c Case, e EnvState) { c.(*multiCase).Env = e })
+}
+
+func multiVerdict(c *multiCase, p *Proc, inst *Instance, st *Stats, checkValues, skipDefaultLoss bool) *Violation {
 	st.Evals++
 	st.Count("multi_container_cases")
 	folded := false
